@@ -116,3 +116,74 @@ def clone(obj, how):
 
 def quiet():
     warnings.filterwarnings("ignore")
+
+
+class SimInterrupt(KeyboardInterrupt):
+    """What a caller's Ctrl-C, an in-process timeout or a cancelled task delivers: an asynchronous exception
+    that surfaces at a line boundary of library code.  A KeyboardInterrupt subclass, so library code that
+    handles one handles the other, and `except Exception` does not swallow it."""
+
+
+_PREFIX = None
+
+
+def _library_prefix():
+    global _PREFIX
+    if _PREFIX is None:
+        import os
+
+        import toqito.nonlocal_games as pkg
+
+        _PREFIX = os.path.dirname(os.path.dirname(os.path.abspath(pkg.__file__))) + os.sep
+    return _PREFIX
+
+
+def maybe_interrupted_call(cs, res, fn, one_in=6):
+    """Fault: with probability 1/one_in (own stream, so the rest of the run is what it would have been) the
+    call about to be made is first attempted and ABORTED at a drawn line boundary inside library code - the
+    user interrupts the cell, a timeout fires - and then made again in full by the caller.  The aborted
+    attempt is never judged.  What is judged, by the invariants the history already has, is everything after
+    it: the object and the caller's data are unchanged, and every later value is what a pristine library
+    gives.  Only frames of toqito files are interrupted, never a third-party solver mid-operation."""
+    import sys
+
+    st = cs.s("intr")
+    if st.draw(one_in) != 0:
+        return False
+    n = st.draw(40) if st.draw(2) else st.draw(1500)
+    prefix = _library_prefix()
+    count = [0]
+    fired = [None]
+
+    def local(frame, event, arg):
+        if event == "line":
+            count[0] += 1
+            if count[0] > n and fired[0] is None:
+                fired[0] = "%s:%d" % (frame.f_code.co_name.lstrip("_"), frame.f_lineno)
+                raise SimInterrupt()
+        return local
+
+    def glob(frame, event, arg):
+        if fired[0] is None and event == "call" and frame.f_code.co_filename.startswith(prefix):
+            return local
+        return None
+
+    prev = sys.gettrace()
+    sys.settrace(glob)
+    try:
+        with warnings.catch_warnings():
+            warnings.simplefilter("ignore")
+            fn()
+    except SimInterrupt:
+        pass
+    except Exception:
+        pass  # the attempt is not judged; the full call that follows is
+    finally:
+        sys.settrace(prev)
+    if fired[0] is not None:
+        res.fault("call_interrupted")
+        res.probe("call_interrupted_then_repeated")
+        res.log.add("interrupt", fired[0], count[0])
+        return True
+    res.probe("interrupt_after_call_end")
+    return False
